@@ -132,3 +132,49 @@ lemma(
     goal="flat_from(n, k, 0) == n.value",
     notes="induction step of: Clean(n) ==> flat_from(n, k, 0) == n.value for all k; the well-founded order (tree height, then nchildren - k) is the meta-level part",
 )
+
+
+# ------------------------------------------------------------------------------------------------ structural equality (C20)
+@spec
+def tree_eq(a: "Node", b: "Node", k: int) -> bool:
+    """k == -1: the trees at a and b are structurally equal (type, value, obfuscation, start, end and, pairwise, the children; parents are ignored);
+    k >= 0: the children of a and b from index k on are pairwise structurally equal."""
+    if k < 0:
+        return (a.type == b.type and a.value == b.value and a.obfuscation == b.obfuscation and a.start == b.start and a.end == b.end
+                and nchildren(a) == nchildren(b) and tree_eq(a, b, 0))
+    if k >= nchildren(a):
+        return True
+    return tree_eq(child_at(a, k), child_at(b, k), -1) and tree_eq(a, b, k + 1)
+
+
+lemma(
+    "children-equal-pairwise",
+    props=["C20"],
+    vars={"a": "Node", "b": "Node", "k": "int"},
+    hyps=["0 <= k <= nchildren(a)"],
+    ih=["implies(k < nchildren(a), tree_eq(a, b, k + 1) == forall(range(k + 1, nchildren(a)), lambda j: tree_eq(child_at(a, j), child_at(b, j), -1)))"],
+    goal="tree_eq(a, b, k) == forall(range(k, nchildren(a)), lambda j: tree_eq(child_at(a, j), child_at(b, j), -1))",
+    notes="induction step on nchildren(a) - k: the recursive fold over the children is the pointwise statement",
+)
+lemma(
+    "tree-eq-reflexive",
+    props=["C20"],
+    vars={"a": "Node"},
+    hyps=[],
+    ih=["forall(range(nchildren(a)), lambda j: tree_eq(child_at(a, j), child_at(a, j), -1))"],
+    uses=["children-equal-pairwise: a=a; b=a; k=0"],
+    goal="tree_eq(a, a, -1)",
+    notes="structural induction step (tree height): a tree equals itself; uses children-equal-pairwise at k = 0",
+)
+
+contract(
+    "multidecoder.node.Node.__eq__",
+    props=["C20"],
+    types={"self": "Node", "other": "Node"},
+    returns="bool",
+    requires={"finite-tree": ACYCLIC},
+    decreases="height(self)",
+    hints={"return": ["children-equal-pairwise: a=self; b=other; k=0", "tree-eq-reflexive: forall j: a=child_at(self, j)"]},
+    result_is="tree_eq(self, other, -1)",
+    ensures={"structural": "result == tree_eq(self, other, -1)"},
+)
